@@ -58,6 +58,9 @@ def plan_e2e(seed, tag, mix, total, shards=None, extra=None, timeout=None, nwcap
         if n == 0:
             continue
         sp = dict(name="e2e-%d" % i, mode="interp", what="e2e", mix=mix, n=n, seed=[seed, tag, i], nwcap=nwcap)
+        if i % 8 == 5:
+            sp["env"] = {"PYTHONOPTIMIZE": "1"}      # an interpreter started with -O: assert statements are compiled away
+            sp["name"] += "-O"
         if timeout:
             sp["timeout"] = timeout
         specs.append(sp)
